@@ -3,6 +3,9 @@ import Enc.Lemmas.ProtoVarint
 import Enc.Lemmas.ProtoRoundTrip
 import Enc.Lemmas.ProtoMap
 import Enc.Lemmas.ProtoDepth
+import Enc.Lemmas.ProtoNamedMain
+import Enc.Lemmas.ProtoArray
+import Enc.Lemmas.ProtoPtrChains
 /-!
 # C03 — proto: Unmarshal(Marshal(v)) == v and Size(v) == len(Marshal(v))
 
@@ -52,9 +55,10 @@ example : encode (.struct (.cons 1 false false false .int32 (.cons 2 false true 
 
 /-! ## Unmarshal ∘ Marshal (proofs in Enc/Lemmas/ProtoRoundTrip*.lean, on top of ProtoWire*.lean)
 
-Universe `tyOK` (see Props/C12): messages with scalar fields of every kind and tag, nested messages, optional `*T` and
-repeated `[]T` fields, field numbers 1…65535 pairwise distinct; `hasType`: well-typed values in range. Outside it: maps,
-byte arrays, `[]*T`, `**T`, named types, RawMessage (differential only) and the known-finding shapes.
+Universe `tyOK` (see Props/C12): messages with scalar fields of every kind and tag, byte arrays `[N]byte`, nested messages,
+optional `*T` and repeated `[]T` fields (`T` a scalar, `[N]byte` or a message), field numbers 1…65535 pairwise distinct;
+`hasType`: well-typed values in range (a `[N]byte` value has N bytes). Maps: `tyOKM` below; defined (named) types: `tyOK2` /
+`tyOKM2` at the end of the file. Outside: `[]*T`, `**T`, RawMessage (differential only) and the known-finding shapes.
 
 `hdep` (new with commit b70a382, `proto.maxDepth`): the message type is at most 10000 messages high (`Codec.nesting`: messages,
 repeated elements and map entries count, pointers do not). It is decidable, holds for every type one can write down, and
@@ -107,5 +111,88 @@ example : tyOKM (.struct Lemmas.ProtoMap.Findings.exMFields) = true
     have : codecOf (.struct Lemmas.ProtoMap.Findings.exMFields) = .struct (fieldsOf 1 Lemmas.ProtoMap.Findings.exMFields) := by
       simp [codecOf]
     rw [this, Lemmas.ProtoMap.Findings.exM_codec]; decide⟩
+
+/-! ## … on message types that use defined ("named") Go types (proofs in Enc/Lemmas/ProtoNamed*.lean)
+
+`type Celsius float64`, `type Hash [32]byte`, `type Inner struct{…}`, `type Ints []int32`, `type Labels map[string]string`
+(`.named n t` in the `Ty` universe) are transparent to the codec, which dispatches on `reflect.Kind`
+(`ProtoNamed.codecOf_erase`: `structCodecOf` builds the same codec tree), and to the reference mapping
+(`ProtoNamed.decode_erase`, `canonical_erase`). Universes `tyOK2 ⊇ tyOK`, `tyOKM2 ⊇ tyOKM`
+(`ProtoNamed.tyOK2_of_tyOK`, `tyOKM2_of_tyOKM`): `nameSafe t` and `erase t` (all `.named` wrappers removed) in `tyOK` /
+`tyOKM`; value predicates are those of the erased type (`hasType2 t v = hasType (erase t) v` …). `nameSafe`: no wrapper is
+called "RawMessage" (the NAME of the one Message implementer of the corpus) and no `[]T` hides `T = uint8` behind a name. -/
+
+open Lemmas.ProtoNamed in
+/-- round trip, scalar messages whose field types may be defined types: literal -/
+theorem unmarshal_marshal_named (fs : Fields) (v : Val)
+    (hty : tyOK2 (.struct fs) = true) (hpl : plainTy2 (.struct fs) = true) (hv : hasType2 (.struct fs) v = true)
+    (hlen : (marshal (.struct fs) v).length < 2 ^ 64) (hdep : Codec.nesting (codecOf (.struct fs)) ≤ Gen.c_proto_maxDepth) :
+    unmarshal (.struct fs) (marshal (.struct fs) v) = .ok v :=
+  Lemmas.ProtoNamed.unmarshal_marshal_named fs v hty hpl hv hlen hdep
+
+open Lemmas.ProtoNamed in
+/-- … with optional and repeated fields -/
+theorem unmarshal_marshal_partial_named (fs : Fields) (v : Val)
+    (hty : tyOK2 (.struct fs) = true) (hv : hasType2 (.struct fs) v = true) (hne : noEmptyPtr2 (.struct fs) v = true)
+    (hlen : (marshal (.struct fs) v).length < 2 ^ 64) (hdep : Codec.nesting (codecOf (.struct fs)) ≤ Gen.c_proto_maxDepth) :
+    ∃ v', unmarshal (.struct fs) (marshal (.struct fs) v) = .ok v'
+      ∧ Spec.Protobuf.canonical (.struct fs) v' = Spec.Protobuf.canonical (.struct fs) v :=
+  Lemmas.ProtoNamed.unmarshal_marshal_partial_named fs v hty hv hne hlen hdep
+
+open Lemmas.ProtoNamed in
+/-- … and with map fields -/
+theorem unmarshal_marshal_map_partial_named (fs : Fields) (v : Val)
+    (hty : tyOKM2 (.struct fs) = true) (hv : hasTypeM2 (.struct fs) v = true) (hne : valOKM2 (.struct fs) v = true)
+    (hlen : (marshal (.struct fs) v).length < 2 ^ 64) (hdep : Codec.nesting (codecOf (.struct fs)) ≤ Gen.c_proto_maxDepth) :
+    ∃ v', unmarshal (.struct fs) (marshal (.struct fs) v) = .ok v'
+      ∧ Spec.Protobuf.canonical (.struct fs) v' = Spec.Protobuf.canonical (.struct fs) v :=
+  Lemmas.ProtoNamed.unmarshal_marshal_map_partial_named fs v hty hv hne hlen hdep
+
+open Lemmas.ProtoNamed in
+/-- non-vacuity: `struct{ A Labels; B ID; C map[int64]Inner; D map[bool]*Inner; E Strs; F MI }`, every field type a
+defined type or built from one (`Lemmas.ProtoNamed.exNFields`), with a concrete admissible value -/
+example : tyOKM2 (.struct exNFields) = true
+    ∧ hasTypeM2 (.struct exNFields) (.struct Lemmas.ProtoMap.Findings.exMVals) = true
+    ∧ valOKM2 (.struct exNFields) (.struct Lemmas.ProtoMap.Findings.exMVals) = true
+    ∧ (marshal (.struct exNFields) (.struct Lemmas.ProtoMap.Findings.exMVals)).length < 2 ^ 64
+    ∧ Codec.nesting (codecOf (.struct exNFields)) ≤ Gen.c_proto_maxDepth := exN_hyps
+
+/-! ## byte arrays `[N]byte` are inside `tyOK` / `tyOKM` (since agent B7): non-vacuity on concrete types
+(`Lemmas.ProtoArray`): `struct{H [4]byte; N int32; Z [2]byte}` with `Z` all zero — elided on the wire, read back as
+`{0,0}` — for the literal theorem, and `struct{H [4]byte; P *[2]byte; L [][3]byte; Z [2]byte; M map[string][2]byte}` for the
+map theorem -/
+
+open Lemmas.ProtoWire Lemmas.ProtoRoundTrip Lemmas.ProtoArray in
+example : tyOK (.struct exPlain) = true ∧ plainTy (.struct exPlain) = true
+    ∧ hasType (.struct exPlain) (.struct exPlainV) = true
+    ∧ (marshal (.struct exPlain) (.struct exPlainV)).length < 2 ^ 64 :=
+  ⟨exPlain_ty, by decide, exPlain_val, exPlain_len⟩
+
+open Lemmas.ProtoWire Lemmas.ProtoMap Lemmas.ProtoArray in
+example : tyOKM (.struct exArr) = true ∧ hasTypeM (.struct exArr) (.struct exArrV) = true
+    ∧ valOKM (.struct exArr) (.struct exArrV) = true
+    ∧ (marshal (.struct exArr) (.struct exArrV)).length < 2 ^ 64
+    ∧ Codec.nesting (codecOf (.struct exArr)) ≤ Gen.c_proto_maxDepth :=
+  ⟨exArr_ty, exArr_val, exArr_ok, exArr_len, exArr_depth⟩
+
+/-! ## still outside every round-trip theorem: repeated pointers `[]*T`, pointer chains `**T`, RawMessage fields
+
+Groundwork and the two witnesses that fix the value hypotheses such theorems need are in `Lemmas.ProtoPtrChains`:
+non-nil pointer elements / complete chains are transparent to the encoder (`encodeSlice_ptr`, `encode_ptr_ptr`), a nil
+element is written as a bare tag (`nil_elem_not_wire`, known finding proto-nil-ptr-in-collection), a `**T` ending in a nil
+pointer writes nothing and comes back nil (`ptr_to_nil_ptr_lost`, known finding proto-ptr-to-empty-encoding). -/
+
+open Lemmas.ProtoPtrChains in
+/-- the `**T` witness: `struct{P **int32}{P: &nil}` → no bytes → `{P: nil}` -/
+theorem ptr_chain_finding :
+    marshal (.struct ppF) (.struct (.cons (.ptr .nil) .nil)) = []
+    ∧ unmarshal (.struct ppF) [] = .ok (.struct (.cons .nil .nil)) :=
+  ⟨ptr_to_nil_ptr_lost.1, by simp [unmarshal, ppF, zeroOf, zeroFields]⟩
+
+open Lemmas.ProtoPtrChains in
+/-- the `[]*T` witness: `struct{L []*int32}{L: {nil}}` → `08`, which is not wire format -/
+theorem nil_elem_finding :
+    marshal (.struct lpF) (.struct (.cons (.list (.cons .nil .nil)) .nil)) = [0x08]
+    ∧ Spec.Protobuf.parse 2 [0x08] = none := nil_elem_not_wire
 
 end Enc.Props.C03
